@@ -20,6 +20,9 @@ package main
 //                           one lock region is one atomic action of the model whatever the lock kind
 //   relay_deletetomb_body   the statements of relayItems.deleteTomb (the scheduled tombstone collection)
 //   relay_gc_sites          every time.AfterFunc call in relay.go: (function, the scheduled function literal / value)
+//   relay_deletecall_body   the statements of relayItems.deleteCall (finishRelayItem's identity-checked Delete)
+//   relay_finish_sites      every call of Relayer.finishRelayItem: (function, arguments)
+//   relay_delete_sites      every call of relayItems.Delete / deleteCall / deleteTomb: (function, method, arguments)
 
 import (
 	"bytes"
@@ -225,7 +228,14 @@ func (t *translator) rsArgText(fd *ast.FuncDecl, a ast.Expr) string {
 
 func (t *translator) relaySites(w *bytes.Buffer) map[string]int {
 	info := t.pkg.TypesInfo
-	var gets, stops, pend, body, calls, chk, getBody, tombBody, gcs []rsRow
+	var gets, stops, pend, body, calls, chk, getBody, tombBody, gcs, dcBody, fins, dels []rsRow
+	argsOf := func(c *ast.CallExpr) string {
+		var as []string
+		for _, a := range c.Args {
+			as = append(as, strings.Join(strings.Fields(t.src(a)), " "))
+		}
+		return strings.Join(as, ", ")
+	}
 	full := func(n ast.Node) string { return strings.Join(strings.Fields(t.src(n)), " ") }
 	for _, f := range t.pkg.Syntax {
 		fname := filepath.Base(t.fset.Position(f.Pos()).Filename)
@@ -247,6 +257,13 @@ func (t *translator) relaySites(w *bytes.Buffer) map[string]int {
 				for _, s := range fd.Body.List {
 					if !t.rsLockOnly(s) {
 						getBody = append(getBody, rsRow{fname, int(s.Pos()), []string{full(s)}})
+					}
+				}
+			}
+			if fn == "relayItems.deleteCall" {
+				for _, s := range fd.Body.List {
+					if !t.rsLockOnly(s) {
+						dcBody = append(dcBody, rsRow{fname, int(s.Pos()), []string{full(s)}})
 					}
 				}
 			}
@@ -295,6 +312,10 @@ func (t *translator) relaySites(w *bytes.Buffer) map[string]int {
 						gets = append(gets, rsRow{fname, int(x.Pos()), []string{fn, t.oneLine(sel.X), arg}})
 					case rn == "relayTimer" && sel.Sel.Name == "Stop":
 						stops = append(stops, rsRow{fname, int(x.Pos()), []string{fn, t.oneLine(sel.X)}})
+					case rn == "Relayer" && sel.Sel.Name == "finishRelayItem":
+						fins = append(fins, rsRow{fname, int(x.Pos()), []string{fn, argsOf(x)}})
+					case rn == "relayItems" && (sel.Sel.Name == "Delete" || sel.Sel.Name == "deleteCall" || sel.Sel.Name == "deleteTomb"):
+						dels = append(dels, rsRow{fname, int(x.Pos()), []string{fn, sel.Sel.Name, argsOf(x)}})
 					case rn == "Relayer" && sel.Sel.Name == "decrementPending":
 						calls = append(calls, rsRow{fname, int(x.Pos()), []string{fn, g}})
 					case rn == "Connection" && sel.Sel.Name == "checkExchanges" && fname == "relay.go":
@@ -358,5 +379,8 @@ func (t *translator) relaySites(w *bytes.Buffer) map[string]int {
 	emit("relay_get_body", 1, getBody)
 	emit("relay_deletetomb_body", 1, tombBody)
 	emit("relay_gc_sites", 2, gcs)
+	emit("relay_deletecall_body", 1, dcBody)
+	emit("relay_finish_sites", 2, fins)
+	emit("relay_delete_sites", 3, dels)
 	return map[string]int{"get": len(gets), "stop": len(stops), "pending": len(pend), "body": len(body), "calls": len(calls), "checkex": len(chk)}
 }
